@@ -10,6 +10,7 @@ import (
 	"strings"
 
 	"verif/gosym/interp"
+	"verif/gosym/sym"
 )
 
 // selfTest validates the trusted parts of the engine:
@@ -27,8 +28,14 @@ func selfTest() int {
 	} else {
 		fmt.Println("selftest unicode definitions: ok")
 	}
+	if err := selfTestTitle(); err != nil {
+		fmt.Println("SELFTEST FAIL x/text Title model:", err)
+		fail++
+	} else {
+		fmt.Println("selftest Title model (ASCII alphanumeric / letter-free words vs golang.org/x/text): ok")
+	}
 	cfg := Config{VerifDir: verifDirDefault(), Repo: "/repo", Workers: 16, Tier: "quick", Seed: 1}
-	s, err := Open(cfg, []string{modPath + "/internal/verifself"})
+	s, err := Open(cfg, []string{modPath + "/pkg/camelcase"})
 	if err != nil {
 		fmt.Println("SELFTEST FAIL load:", err)
 		return 2
@@ -39,7 +46,7 @@ func selfTest() int {
 	}
 	var reps []*CaseReport
 	for n := int64(0); n <= 4; n++ {
-		rep := s.Explore(Case{Pkg: modPath + "/internal/verifself", Func: "Verif_Self_UTF8RoundTrip", Params: []int64{n}, Reach: []string{"end"}, WitnessEvery: 7})
+		rep := s.Explore(Case{Pkg: modPath + "/pkg/camelcase", Func: "Verif_Self_UTF8RoundTrip", Params: []int64{n}, Reach: []string{"end"}, WitnessEvery: 7})
 		rep.Print(os.Stdout, 2)
 		reps = append(reps, rep)
 		if len(rep.Violations) > 0 || len(rep.Inconclusive) > 0 {
@@ -50,7 +57,7 @@ func selfTest() int {
 		w.NoRuneProvenance = false
 	}
 	for n := int64(0); n <= 2; n++ {
-		rep := s.Explore(Case{Pkg: modPath + "/internal/verifself", Func: "Verif_Self_Strings", Params: []int64{n}, Reach: []string{"end"}, WitnessEvery: 5})
+		rep := s.Explore(Case{Pkg: modPath + "/pkg/camelcase", Func: "Verif_Self_Strings", Params: []int64{n}, Reach: []string{"end"}, WitnessEvery: 5})
 		rep.Print(os.Stdout, 2)
 		reps = append(reps, rep)
 		if len(rep.Violations) > 0 || len(rep.Inconclusive) > 0 {
@@ -174,4 +181,59 @@ func selfTestUnicode() error {
 		}
 	}
 	return nil
+}
+
+// selfTestTitle compares the engine's exact model of cases.Title(language.Und)
+// on ASCII alphanumeric words (and the identity on letter-free ASCII words)
+// with the real x/text function: all words of length 1..4 over a
+// representative alphabet (13^4 = 28 561 words of length 4).
+func selfTestTitle() error {
+	ctx := sym.NewCtx()
+	alnum := []byte("azAZmM09b5Qq7")
+	other := []byte("_-. :'/+")
+	check := func(word []byte, model bool) error {
+		want := interp.TitleNative(string(word))
+		got := string(word)
+		if model {
+			in := make([]*sym.Term, len(word))
+			for i, b := range word {
+				in[i] = ctx.BV(uint64(b), 8)
+			}
+			out := interp.StrBytes(interp.TitleAlnumModel(ctx, in))
+			gb := make([]byte, len(out))
+			for i, t := range out {
+				if !t.IsConst() {
+					return fmt.Errorf("model not constant on concrete input %q", word)
+				}
+				gb[i] = byte(t.Val)
+			}
+			got = string(gb)
+		}
+		if got != want {
+			return fmt.Errorf("Title(%q): model %q, x/text %q", word, got, want)
+		}
+		return nil
+	}
+	var rec func(prefix []byte, alphabet []byte, n int, model bool) error
+	rec = func(prefix []byte, alphabet []byte, n int, model bool) error {
+		if len(prefix) > 0 {
+			if err := check(prefix, model); err != nil {
+				return err
+			}
+		}
+		if len(prefix) == n {
+			return nil
+		}
+		for _, b := range alphabet {
+			if err := rec(append(append([]byte(nil), prefix...), b), alphabet, n, model); err != nil {
+				return err
+			}
+		}
+		return nil
+	}
+	if err := rec(nil, alnum, 4, true); err != nil {
+		return err
+	}
+	// letter-free words (digits and punctuation): identity
+	return rec(nil, append(append([]byte(nil), other...), '0', '7'), 4, false)
 }
